@@ -934,6 +934,11 @@ impl<W: InnerWriterTrait> ArchiveWriter<'_, W> {
             return Err(Error::DuplicateFilename);
         }
 
+        // Refuse the file before registering it or writing anything
+        if filename.len() as u64 > FILENAME_MAX_SIZE {
+            return Err(Error::FilenameTooLong);
+        }
+
         // Create ID for this file
         let id = self.next_id;
         self.next_id += 1;
